@@ -286,7 +286,22 @@ fn run_in(case: &C03Case, exec: &mut Exec) -> Result<CaseInfo, Fail> {
         }
         verdict = evaluate(case, &p, &opts, &res);
     }
-    verdict
+    let mut info = verdict?;
+    // the same start position and scope once more as a following GET / (one case in three;
+    // NDJSON or SSE), on the now quiescent store: history, one threshold, then live frames
+    if case.pre % 3 == 0 {
+        let http_opts = ROpts {
+            follow: Some(0),
+            tail: opts.tail,
+            last_id: opts.last_id,
+            limit: None,
+            ctx: opts.ctx,
+        };
+        let sse = case.pre % 2 == 1 || case.pace_us % 2 == 1;
+        info.checks += super::httpfollow::check(exec, &http_opts, sse, opts.ctx.unwrap_or(ZERO))?;
+        info.labels.push(format!("http-follow-{}", if sse { "sse" } else { "ndjson" }));
+    }
+    Ok(info)
 }
 
 fn evaluate(case: &C03Case, p: &Prepared, opts: &ROpts, res: &ScenarioResult) -> Result<CaseInfo, Fail> {
